@@ -332,10 +332,21 @@ def _registry(run: Run, res: Resolver, cm) -> None:
         ("conflicts", lambda v: isinstance(v, ast.List) and not v.elts),
     ])
     cfg = CFG(dc.node)
-    appends = [n for n in cfg.nodes if n.ast is not None and any(isinstance(c, ast.Call) and isinstance(c.func, ast.Attribute) and c.func.attr == "append" and is_name(c.func.value, "conflicts") for c in ast.walk(n.ast))]
+    # additions to the conflict list: conflicts.append(...) under branch conditions, or conflicts.extend(<comprehension>) whose
+    # filters are conditions of each added element
+    appends = []
+    for n in cfg.nodes:
+        if n.ast is None:
+            continue
+        for c in ast.walk(n.ast):
+            if isinstance(c, ast.Call) and isinstance(c.func, ast.Attribute) and is_name(c.func.value, "conflicts"):
+                if c.func.attr == "append":
+                    appends.append((n, []))
+                elif c.func.attr == "extend" and len(c.args) == 1 and isinstance(c.args[0], (ast.GeneratorExp, ast.ListComp)):
+                    appends.append((n, [(ast.unparse(i), True) for g in c.args[0].generators for i in g.ifs]))
     kinds = {"REQ∧OPT": False, "CONST≠CONST": False, "CONST∉ENUM": False}
-    for a in appends:
-        conds = [(ast.unparse(t), val) for t, val in branch_conditions(cfg, a.id)]
+    for a, extra in appends:
+        conds = [(ast.unparse(t), val) for t, val in branch_conditions(cfg, a.id)] + extra
         for txt, val in conds:
             if val is True and "has_req" in txt and "has_opt" in txt and " and " in txt:
                 kinds["REQ∧OPT"] = True
